@@ -235,26 +235,51 @@ func registerInstances(text string) error {
 	return nil
 }
 
-// fakeDNS publishes a quarantine DMARC policy for the sender's domain.
-type fakeDNS struct{}
+// fakeDNS publishes a quarantine DMARC policy for the sender's domain. Like a real resolver it
+// takes its time and gives up when the context of the query is cancelled: the query parks until
+// the driver releases it (when no check call is left to release), then answers - or fails if the
+// pipeline has cancelled the lookup meanwhile.
+type fakeDNS struct {
+	mu     sync.Mutex
+	parked []chan struct{}
+}
+
+func (f *fakeDNS) release() bool {
+	f.mu.Lock()
+	defer f.mu.Unlock()
+	if len(f.parked) == 0 {
+		return false
+	}
+	close(f.parked[0])
+	f.parked = f.parked[1:]
+	return true
+}
 
 func notFound(name string) error {
 	return &net.DNSError{Err: "no such host", Name: name, IsNotFound: true}
 }
-func (fakeDNS) LookupAddr(ctx context.Context, addr string) ([]string, error) {
+func (f *fakeDNS) LookupAddr(ctx context.Context, addr string) ([]string, error) {
 	return nil, notFound(addr)
 }
-func (fakeDNS) LookupHost(ctx context.Context, host string) ([]string, error) {
+func (f *fakeDNS) LookupHost(ctx context.Context, host string) ([]string, error) {
 	return nil, notFound(host)
 }
-func (fakeDNS) LookupMX(ctx context.Context, name string) ([]*net.MX, error) {
+func (f *fakeDNS) LookupMX(ctx context.Context, name string) ([]*net.MX, error) {
 	return nil, notFound(name)
 }
-func (fakeDNS) LookupIPAddr(ctx context.Context, host string) ([]net.IPAddr, error) {
+func (f *fakeDNS) LookupIPAddr(ctx context.Context, host string) ([]net.IPAddr, error) {
 	return nil, notFound(host)
 }
-func (fakeDNS) LookupTXT(ctx context.Context, name string) ([]string, error) {
+func (f *fakeDNS) LookupTXT(ctx context.Context, name string) ([]string, error) {
 	if strings.EqualFold(strings.TrimSuffix(name, "."), "_dmarc.example.org") {
+		gate := make(chan struct{})
+		f.mu.Lock()
+		f.parked = append(f.parked, gate)
+		f.mu.Unlock()
+		<-gate
+		if err := ctx.Err(); err != nil {
+			return nil, err
+		}
 		return []string{"v=DMARC1; p=quarantine"}, nil
 	}
 	return nil, notFound(name)
@@ -281,6 +306,7 @@ type driver struct {
 	ctl   *scripted.CheckCtl
 	hints []Call
 	n     int
+	dns   *fakeDNS
 }
 
 // pick chooses the parked call to release next: the first not yet consumed call
@@ -317,6 +343,9 @@ func (d *driver) cmd(op, r string, f func()) {
 				synctest.Wait()
 				parked := d.ctl.Parked()
 				if len(parked) == 0 {
+					if d.dns.release() { // a policy lookup the command did not wait for
+						continue
+					}
 					return
 				}
 				d.ctl.Release(d.pick(parked))
@@ -325,6 +354,9 @@ func (d *driver) cmd(op, r string, f func()) {
 		}
 		parked := d.ctl.Parked()
 		if len(parked) == 0 {
+			if d.dns.release() { // every check has answered: now the DMARC policy lookup does
+				continue
+			}
 			d.t.Fatalf("command %s %s is blocked but no check call is parked", op, r)
 		}
 		d.ctl.Release(d.pick(parked))
@@ -391,10 +423,11 @@ func runPipeline(t *testing.T, b Behaviour, w *bufio.Writer) {
 		}
 		p.Hostname = "mx.example.org"
 		p.Log = log.Logger{Out: log.NopOutput{}}
-		p.Resolver = fakeDNS{}
+		dns := &fakeDNS{}
+		p.Resolver = dns
 
 		tr.Emit("Cfg", cfgEvent(b.Cfg))
-		d := &driver{t: t, tr: tr, ctl: ctl}
+		d := &driver{t: t, tr: tr, ctl: ctl, dns: dns}
 		for _, c := range b.Calls {
 			if c.A == "call" {
 				d.hints = append(d.hints, c)
@@ -648,6 +681,11 @@ func (d *relayDelivery) AddRcpt(ctx context.Context, to string, opts smtp.RcptOp
 	return err
 }
 func (d *relayDelivery) Body(ctx context.Context, h textproto.Header, b buffer.Buffer) error {
+	if b == nil {
+		// a queue entry committed without a body (only broken code gets here): do not let the
+		// remote target crash the process on it
+		return errors.New("relay of a queue entry that has no body")
+	}
 	return d.inner.Body(ctx, h, b)
 }
 func (d *relayDelivery) Commit(ctx context.Context) error { return d.inner.Commit(ctx) }
